@@ -27,7 +27,7 @@ import (
 	"verif/harness/xt"
 )
 
-const c05Rule = "rapid: SP metadata (AuthnRequestsSigned absent/false/0/true/1 x zero or one RSA certificate) x IdP WantAuthRequestsSigned {'', false, true, 1} x an original AuthnRequest validly signed by the simulated SP (POST: enveloped XML-DSig; Redirect: query-string signature; rsa-sha1 / rsa-sha256) or unsigned, then 0..2 mutations from a catalogue: field edits after signing, signature stripping, emptied / bit-flipped SignatureValue, DigestValue and query Signature, algorithm substitution, signing with an unregistered key (with its own, the registered or no KeyInfo certificate), Issuer switched to another SP, signature wrapping (signed original moved into Extensions or ds:Object under a forged document element that carries the copied Signature; same-ID variant), RelayState changed / dropped / added after signing, message re-encoded after signing, duplicate SAMLRequest parameters, parameters split between query and body, moving a message or its signature to the other binding, a byte string that is the signed message when read as XML and a forged one when inflated (POST binding, SAMLEncoding announcing DEFLATE), embedded bogus ds:Signature, bogus Signature form parameter, arbitrary bytes in Signature / SigAlg. One case in five addresses the second clause alone: nobody requires signing, the original is signed, exactly one signature-affecting mutation (nine SigAlg substitutions incl. unimplemented and re-spelled URIs). Non-trivial: a mutated or cross-binding case derived from a valid signature (under a configuration that requires signing it exercises the first clause, otherwise the second). Distinct by (mutation set, binding, flags)."
+const c05Rule = "rapid: SP metadata (AuthnRequestsSigned absent/false/0/true/1 x zero or one RSA certificate) x IdP WantAuthRequestsSigned {'', false, true, 1} x an original AuthnRequest validly signed by the simulated SP (POST: enveloped XML-DSig; Redirect: query-string signature; rsa-sha1 / rsa-sha256) or unsigned, then 0..2 mutations from a catalogue: field edits after signing, signature stripping, emptied / bit-flipped SignatureValue, DigestValue and query Signature, algorithm substitution, signing with an unregistered key (with its own, the registered or no KeyInfo certificate), Issuer switched to another SP, signature wrapping (signed original moved into Extensions or ds:Object under a forged document element that carries the copied Signature; same-ID variant), RelayState changed / dropped / added after signing, message re-encoded after signing, duplicate SAMLRequest / RelayState parameters (also under percent-escaped parameter names), parameters split between query and body, moving a message or its signature to the other binding, a byte string that is the signed message when read as XML and a forged one when inflated (POST binding, SAMLEncoding announcing DEFLATE), embedded bogus ds:Signature, bogus Signature form parameter, arbitrary bytes in Signature / SigAlg. One case in five addresses the second clause alone: nobody requires signing, the original is signed, exactly one signature-affecting mutation (nine SigAlg substitutions incl. unimplemented and re-spelled URIs). Non-trivial: a mutated or cross-binding case derived from a valid signature (under a configuration that requires signing it exercises the first clause, otherwise the second). Distinct by (mutation set, binding, flags)."
 
 type C05Case struct {
 	Spec    world.Spec     `json:"spec"`
@@ -75,6 +75,7 @@ var c05RedirectMutations = []Defect{
 	{Name: "rogue-key"}, {Name: "edit-issuer-other-sp"},
 	{Name: "dup-samlrequest-forged-first"}, {Name: "dup-samlrequest-forged-last"}, {Name: "forged-in-body"}, {Name: "signature-in-body"},
 	{Name: "as-post"}, {Name: "embedded-bad-dsig"}, {Name: "reencode-message"},
+	{Name: "escaped-name-forged-first", Param: "SAMLReques%74"}, {Name: "escaped-name-forged-first", Param: "%53AMLRequest"}, {Name: "escaped-name-forged-last", Param: "SAMLReques%74"}, {Name: "escaped-name-relaystate-first", Param: "RelayStat%65"},
 }
 
 func genC05Case(t *rapid.T) C05Case {
@@ -567,6 +568,13 @@ func c05Render(c C05Case, now time.Time) c05Rendered {
 			params = append([]string{"SAMLRequest=" + forgedMsg("ID")}, params...)
 		case "dup-samlrequest-forged-last":
 			params = append(params, "SAMLRequest="+forgedMsg("ID"))
+		case "escaped-name-forged-first":
+			// a parameter name is percent-decoded like a value: SAMLReques%74 is SAMLRequest for every form parser
+			params = append([]string{m.Param + "=" + forgedMsg("ID")}, params...)
+		case "escaped-name-forged-last":
+			params = append(params, m.Param+"="+forgedMsg("ID"))
+		case "escaped-name-relaystate-first":
+			params = append([]string{m.Param + "=changed-" + forgedMark}, params...)
 		case "forged-in-body":
 			body = "SAMLRequest=" + forgedMsg("ID")
 		case "signature-in-body":
